@@ -623,6 +623,26 @@ class NPd(Stub):
             return x.isna()
         raise Unsupported("np.isnan of " + type(x).__name__)
 
+    @staticmethod
+    def logical_not(m):
+        if isinstance(m, DMask):
+            return ~m
+        raise Unsupported("np.logical_not of " + type(m).__name__)
+
+    invert = logical_not
+
+    @staticmethod
+    def logical_and(a, b):
+        if isinstance(a, DMask) and isinstance(b, DMask):
+            return a & b
+        raise Unsupported("np.logical_and of non-masks")
+
+    @staticmethod
+    def logical_or(a, b):
+        if isinstance(a, DMask) and isinstance(b, DMask):
+            return a | b
+        raise Unsupported("np.logical_or of non-masks")
+
     float64 = Opaque("np.float64")
 
 
